@@ -57,6 +57,7 @@ class FnContract:
     yields: Optional[Callable] = None      # yields(ctx) -> Bool over ctx.yielded
     exc_any_ok: bool = False               # `raises` lists are not exhaustive (used for assumed externals)
     may_raise_any: bool = False            # assumed external: may raise any Exception (EXC-ANY) besides `raises`
+    exc_ensures: list = field(default_factory=list)  # [(label, fn(ctx) -> Bool)]: postconditions of every *exceptional* outcome (ctx.exc set)
 
 
 class Registry:
